@@ -253,6 +253,26 @@ theorem inputTable_ok (st : Store) (is : List VInfoP) :
 
 /-! ### deserInits -/
 
+theorem newInit_quiet (st : Store) (vi : List (Name × Info)) (t : TensorP) (tid : Nat) :
+    Quiet st (newInit st vi t tid) ∧ (newInit st vi t tid).nv = st.nv + 1 := by
+  unfold newInit
+  split
+  · rename_i i _
+    have hlt : st.nv < (st.alloc { name := some t.name, info := tensorInfo t.ty t.sh, const := some tid }).1.nv := by
+      simp
+    exact ⟨(Quiet.alloc st { name := some t.name, info := tensorInfo t.ty t.sh, const := some tid } rfl).trans
+      (Quiet.modify _ st.nv (fun c => { c with info := i.orTensor (tensorInfo t.ty t.sh) }) hlt
+        (fun _ => ⟨rfl, rfl⟩)), rfl⟩
+  · exact ⟨Quiet.alloc st _ rfl, rfl⟩
+
+theorem newInit_tbl {st : Store} {b : Nat} {tb : Table} (h : TblOK st b tb) (hb : b ≤ st.nv)
+    (vi : List (Name × Info)) (t : TensorP) (tid : Nat) : TblOK (newInit st vi t tid) b ((t.name, st.nv) :: tb) := by
+  have := TblOK.cons_alloc h hb t.name { name := some t.name, info := tensorInfo t.ty t.sh, const := some tid }
+  unfold newInit
+  split
+  · exact ⟨this.lt, this.ge, this.nodup⟩
+  · exact this
+
 theorem deserInits_spec (vi : List (Name × Info)) (ts : List TensorP) :
     ∀ (st : Store) (tbl : Table) (b : Nat), TblOK st b tbl → b ≤ st.nv →
       Quiet st (deserInits st tbl vi ts).1 ∧ TblOK (deserInits st tbl vi ts).1 b (deserInits st tbl vi ts).2.1 ∧
@@ -283,32 +303,17 @@ theorem deserInits_spec (vi : List (Name × Info)) (ts : List TensorP) :
         · exact ⟨t.name, s3.mem _ (lookup_mem _ _ _ hv)⟩
         · exact m3 w hw
       · rename_i hnone
-        -- a fresh value
-        let st1 := (st.allocTensor { name := some t.name, data := t.data, ty := t.ty, sh := t.sh }).1
-        let c0 : ValueS := { name := some t.name, info := tensorInfo t.ty t.sh, const := some st.nt }
-        have q2 : Quiet st1 (st1.alloc c0).1 := Quiet.alloc st1 c0 rfl
-        have hok2 : TblOK (st1.alloc c0).1 b ((t.name, st.nv) :: tbl) :=
-          TblOK.cons_alloc (st := st1) ⟨h.lt, h.ge, h.nodup⟩ hb t.name c0
-        -- optional value_info overwrite
-        have step : ∀ (o : Option Info),
-            Quiet (st1.alloc c0).1 (match o with
-              | some i => (st1.alloc c0).1.modify st.nv fun c => { c with info := i.orTensor (tensorInfo t.ty t.sh) }
-              | none => (st1.alloc c0).1) ∧
-            TblOK (match o with
-              | some i => (st1.alloc c0).1.modify st.nv fun c => { c with info := i.orTensor (tensorInfo t.ty t.sh) }
-              | none => (st1.alloc c0).1) b ((t.name, st.nv) :: tbl) := by
-          intro o
-          cases o with
-          | none => exact ⟨Quiet.refl _, hok2⟩
-          | some i =>
-            exact ⟨Quiet.modify _ _ _ (by simp [st1]) (fun _ => ⟨rfl, rfl⟩), ⟨hok2.lt, hok2.ge, hok2.nodup⟩⟩
-        obtain ⟨q3, ok3⟩ := step (vi.lookup t.name)
-        have h1 : st.nv ≤ (st1.alloc c0).1.nv := by
-          show st.nv ≤ st.nv + 1
-          omega
-        obtain ⟨q4, ok4, s4, m4⟩ := ih _ ((t.name, st.nv) :: tbl) b ok3
-          (Nat.le_trans hb (Nat.le_trans h1 q3.nv_le))
-        refine ⟨((qt.trans q2).trans q3).trans q4, ok4, (Stable.cons st.nv tbl t.name st.nv hnone (Nat.le_refl _)).trans (s4.weaken (Nat.le_trans h1 q3.nv_le)), ?_⟩
+        obtain ⟨q2, hnv2⟩ := newInit_quiet (st.allocTensor { name := some t.name, data := t.data, ty := t.ty, sh := t.sh }).1
+          vi t st.nt
+        have ok2 : TblOK (newInit (st.allocTensor { name := some t.name, data := t.data, ty := t.ty, sh := t.sh }).1
+            vi t st.nt) b ((t.name, st.nv) :: tbl) :=
+          newInit_tbl (st := (st.allocTensor { name := some t.name, data := t.data, ty := t.ty, sh := t.sh }).1)
+            ⟨h.lt, h.ge, h.nodup⟩ hb vi t st.nt
+        have hle : st.nv ≤ (newInit (st.allocTensor { name := some t.name, data := t.data, ty := t.ty, sh := t.sh }).1
+            vi t st.nt).nv := by rw [hnv2]; simp
+        obtain ⟨q4, ok4, s4, m4⟩ := ih _ ((t.name, st.nv) :: tbl) b ok2 (Nat.le_trans hb hle)
+        refine ⟨(qt.trans q2).trans q4, ok4,
+          (Stable.cons st.nv tbl t.name st.nv hnone (Nat.le_refl _)).trans (s4.weaken hle), ?_⟩
         intro w hw
         simp only [List.mem_cons] at hw
         rcases hw with rfl | hw
